@@ -21,21 +21,23 @@ class C11(Check):
     prop_file = "theories/Properties/Properties_C11.v"
     theorems = ("C11_safety", "C11_down_only_to_waiting", "C11_callback_at_most_once",
                 "C11_counters_monotone", "C11_conservation", "C11_tree_wf",
-                "C11_quiescence_stable", "C11_no_deadlock", "C11_liveness_partial")
+                "C11_quiescence_stable", "C11_no_deadlock", "C11_liveness", "C11_liveness_drain")
     comp = "term4c"
     extract_file = "theories/Extract/Extract_Term4C.v"
     extracted = ("term4c",)
     harness_src = "harness/h_term4c.c"
     link_parsec = True
-    level_text = ("Safety theorem for every number of processes N >= 1 and every schedule of the atomic-step model (N monitors of "
-                  "the four-counter module on the module's binary tree, FIFO control channels, delayed list, application messages in "
-                  "flight): whenever a process is TERMINATED every process is idle with no work, no application message is in "
+    level_text = ("Theorems for every number of processes N >= 1 and every schedule of the atomic-step model (N monitors of the "
+                  "four-counter module on the module's binary tree, FIFO control channels, the delayed list, application messages in "
+                  "flight). Safety: whenever a process is TERMINATED every process is idle with no work, no application message is in "
                   "flight or being received and the sums of sent and received messages are equal (Mattern's two-wave argument as an "
-                  "inductive invariant with ghost snapshots); DOWN reaches only processes waiting for their parent, DOWN(true) only "
-                  "idle ones; each callback runs at most once; counters are monotone; conservation; tree well-formed. Liveness is "
-                  "partial: global quiescence is stable and a quiescent reachable state with empty channels has every process "
-                  "terminated (no deadlock); the bound on the number of waves is not proved. The model is tied to the real module "
-                  "by stepwise differential runs of N simulated ranks.")
+                  "inductive invariant with ghost wave snapshots); a DOWN message exists only for a process waiting for its parent, "
+                  "DOWN(true) only for an idle one; each callback runs exactly once iff TERMINATED; counters monotone; conservation; "
+                  "the tree is well formed. Liveness: from every reachable globally quiescent configuration and for every schedule, "
+                  "quiescence persists, at most 32N+15+2|net| choices have an effect (deliveries of pending control messages: three "
+                  "waves), and whenever the control channels are empty every process is TERMINATED; the oldest-first delivery "
+                  "schedule terminates everywhere. Full level for the model; the model is tied to the real module by stepwise "
+                  "differential runs of N simulated ranks.")
     level_note = ("Trusted: Coq kernel, extraction, the harness (stub of parsec_ce.send_am, one address space, rank i = taskpool id "
                   "i+1, tp_id rewritten on delivery); one model step = one call into the module (the rwlock makes each call atomic, "
                   "C33); the environment discipline of termdet.h (work appears on an idle taskpool only while a message is being "
